@@ -155,14 +155,18 @@ static void scenario_setter(int qidx, int depth, int variant){ int conc=variant&
 // (11) several threads cross the boundary between the inline counter and the side counter at the same moment: the queue has been
 // suspended 63 times (the inline counter is full); three threads, released together, suspend it once more each; then 66 resumes -
 // nothing starts before the last one, the pending item runs after it.
-static dispatch_queue_t xq; static atomic_int x_go, x_ready;
-static void *x_suspender(void *a){ (void)a; atomic_fetch_add(&x_ready,1); while(!atomic_load(&x_go)){} dispatch_suspend(xq); return 0; }
+extern void (*_dispatch_verif_yield_cb)(const volatile void *addr, const char *func, int line);
+static dispatch_queue_t xq; static atomic_int x_go, x_ready; static __thread int x_slow;
+// one of the three is held for a moment just before it takes the queue's side lock (the only lock these threads take here): whatever it
+// has read of the side counter before that is stale by the time it holds the lock - another thread has completed a whole transfer
+static void xycb(const volatile void *addr, const char *func, int line){ (void)addr;(void)line; if(x_slow && !strcmp(func,"_dispatch_unfair_lock_lock")){ x_slow=0; usleep(400); } }
+static void *x_suspender(void *a){ x_slow=(a!=NULL); atomic_fetch_add(&x_ready,1); while(!atomic_load(&x_go)){} dispatch_suspend(xq); return 0; }
 static void scenario_spill_race(int qidx, int round){ dispatch_queue_t q=dispatch_queue_create("c06x",round%2?DISPATCH_QUEUE_CONCURRENT:DISPATCH_QUEUE_SERIAL); curq=qidx; CUR=q; xq=q;
   printf("Q %d width %d stateoff %ld\n", qidx, round%2?4094:1, (long)((char*)_dispatch_verif_queue_state_addr(q)-(char*)q));
   for(int i=0;i<63;i++) dispatch_suspend(q);
   atomic_int ran=0; atomic_int *rp=&ran; dispatch_async(q,^{ atomic_store(rp,1); });
-  atomic_store(&x_go,0); atomic_store(&x_ready,0); pthread_t th[3]; for(int i=0;i<3;i++) pthread_create(&th[i],0,x_suspender,0);
-  while(atomic_load(&x_ready)<3){} atomic_store(&x_go,1); for(int i=0;i<3;i++) pthread_join(th[i],0);
+  atomic_store(&x_go,0); atomic_store(&x_ready,0); pthread_t th[3]; _dispatch_verif_yield_cb=xycb; for(long i=0;i<3;i++) pthread_create(&th[i],0,x_suspender,(void*)(long)(i==0 && round%4!=3));
+  while(atomic_load(&x_ready)<3){} atomic_store(&x_go,1); for(int i=0;i<3;i++) pthread_join(th[i],0); _dispatch_verif_yield_cb=0;
   for(int i=0;i<66;i++){ if(atomic_load(&ran)){ fail("an item started on a queue with suspensions outstanding after three threads had suspended it at the same moment with the inline counter full: resumes issued of 66 / round",i,round,0); break; }
     dispatch_resume(q); if(i%8==7 || i>=63) usleep(300); }
   if(!viol){ for(int w=0; w<3000 && !atomic_load(&ran); w++) usleep(1000); if(!atomic_load(&ran)) fail("the pending item did not run after 66 resumes for 66 suspensions (three of them issued at the same moment with the inline counter full): round",round,0,0); }
